@@ -521,68 +521,22 @@ func c13RunBase(interval, timeout time.Duration, script []c13Out, custom bool) (
 
 // ---------------------------------------------------------------- real BaseClient, surplus PINGRESPs
 
-// c13WireConn tells when the reader has consumed and dispatched everything the peer sent: it
-// then enters Read with nothing queued.
+// c13WireConn: a memConn whose peer can tell when the reader has consumed and dispatched everything
+// it sent (memConn.waitReaderIdle: nothing queued and the reader blocked in Read, decided under the
+// transport's own lock, so there is no window in which queued bytes look "already handled").
 type c13WireConn struct {
 	*memConn
-	imu       sync.Mutex
-	idle      bool
-	idleCount int
 }
 
-func (t *c13WireConn) Read(p []byte) (int, error) {
-	t.memConn.mu.Lock()
-	empty := len(t.memConn.in) == 0
-	t.memConn.mu.Unlock()
-	if empty {
-		t.imu.Lock()
-		t.idle = true
-		t.idleCount++
-		t.imu.Unlock()
-	}
-	n, err := t.memConn.Read(p)
-	t.imu.Lock()
-	t.idle = false
-	t.imu.Unlock()
-	return n, err
-}
-
-func (t *c13WireConn) waitIdle() (int, bool) {
-	deadline := time.Now().Add(c13Stuck)
-	for {
-		t.imu.Lock()
-		idle, c := t.idle, t.idleCount
-		t.imu.Unlock()
-		if idle {
-			return c, true
-		}
-		if t.isClosed() || time.Now().After(deadline) {
-			return c, false
-		}
-		time.Sleep(100 * time.Microsecond)
-	}
-}
+func (t *c13WireConn) waitIdle() bool { return t.memConn.waitReaderIdle(c13Stuck) }
 
 // inject sends one PINGRESP while nobody waits for one and returns when the reader has dispatched it.
 func (t *c13WireConn) inject() bool {
-	c0, ok := t.waitIdle()
-	if !ok {
+	if !t.waitIdle() {
 		return false
 	}
 	t.send([]byte{0xD0, 0})
-	deadline := time.Now().Add(c13Stuck)
-	for {
-		t.imu.Lock()
-		c := t.idleCount
-		t.imu.Unlock()
-		if c > c0 {
-			return true
-		}
-		if t.isClosed() || time.Now().After(deadline) {
-			return false
-		}
-		time.Sleep(100 * time.Microsecond)
-	}
+	return t.waitIdle()
 }
 
 // c13WireCli is the Client handed to KeepAlive: BaseClient.Ping, and between two pings (after
@@ -591,7 +545,7 @@ type c13WireCli struct {
 	mqtt.Client
 	base *mqtt.BaseClient
 	conn *c13WireConn
-	urs  [][3]int
+	urs  [][4]int
 	n    int
 }
 
@@ -609,9 +563,25 @@ func (w *c13WireCli) Ping(ctx context.Context) error {
 	return err
 }
 
+// c13OtherPackets: everything a broker may send except PINGRESP: PUBLISH QoS 0/1/2, PUBREL for the
+// QoS 2 one, and stray PUBACK / PUBREC / PUBCOMP / SUBACK / UNSUBACK.
+func c13OtherPackets() []byte {
+	var b []byte
+	b = append(b, encPublish(inMsg{Topic: []byte("t"), QoS: 0, Payload: []byte("x")})...)
+	b = append(b, encPublish(inMsg{Topic: []byte("t"), QoS: 1, ID: 11, Payload: []byte("y")})...)
+	b = append(b, encPublish(inMsg{Topic: []byte("t"), QoS: 2, ID: 12, Payload: []byte("z")})...)
+	b = append(b, encID(0x62, 12)...)
+	b = append(b, encID(0x40, 900)...)
+	b = append(b, encID(0x50, 901)...)
+	b = append(b, encID(0x70, 902)...)
+	b = append(b, 0x90, 3, 0x03, 0x87, 0x00)
+	b = append(b, encID(0xB0, 904)...)
+	return b
+}
+
 // c13RunWire: per ping j, urs[j] = (unsolicited PINGRESPs before its PINGREQ, PINGRESPs consumed by the
 // reader before the write of the PINGREQ returns, PINGRESPs queued after that).
-func c13RunWire(interval, timeout time.Duration, urs [][3]int) (c13Obs, error) {
+func c13RunWire(interval, timeout time.Duration, urs [][4]int) (c13Obs, error) {
 	par := c13NewParent(false)
 	var mu sync.Mutex
 	var starts []int64
@@ -637,6 +607,14 @@ func c13RunWire(interval, timeout time.Duration, urs [][3]int) (c13Obs, error) {
 			}
 			starts = append(starts, now)
 			mu.Unlock()
+			others := func() {
+				for k := 0; k < urs[i][3]; k++ {
+					c.send(c13OtherPackets()) // the peer talks, but this is no PINGRESP
+				}
+			}
+			if urs[i][1] == 0 {
+				others()
+			}
 			var burst []byte
 			for k := 0; k < urs[i][1]; k++ {
 				burst = append(burst, 0xD0, 0)
@@ -646,6 +624,9 @@ func c13RunWire(interval, timeout time.Duration, urs [][3]int) (c13Obs, error) {
 				// Transport.Write of the PINGREQ returns
 				c.send(burst)
 				c.waitReaderIdle(2 * time.Second)
+				// (not before: the reader acknowledges a QoS 1/2 PUBLISH with a write, which has to
+				// wait for this Write of the PINGREQ to return)
+				others()
 			}
 			burst = nil
 			for k := 0; k < urs[i][2]; k++ {
@@ -812,8 +793,8 @@ func (b *c13Broker) onWrite(sc *c13Conn, pkt []byte) error {
 	if !sc.isClosed() {
 		sc.mu.Lock()
 		hung := sc.hung
-		if t := pkt[0] & 0xF0; t != 0x10 && t != 0xC0 {
-			sc.others = append(sc.others, pkt[0])
+		if t := pkt[0] & 0xF0; t != 0x10 && t != 0xC0 && t != 0x40 && t != 0x50 && t != 0x70 {
+			sc.others = append(sc.others, pkt[0]) // (acks of the peer's own PUBLISHes are not counted)
 		}
 		sc.mu.Unlock()
 		if hung {
@@ -916,7 +897,8 @@ type c13SysRes struct {
 // cancelAfter >= 0: the caller cancels the context it passed to Connect once that many PINGREQs
 // were seen (0: right after Connect returned); -1: it keeps it for the whole scenario.
 // hung: after the unanswered PINGREQ the peer does not take any byte either.
-func c13SysSilent(interval, timeout time.Duration, k, cancelAfter int, hung bool) (c13SysRes, error) {
+// talk: mute to pings only: every unanswered PINGREQ is followed by PUBLISHes, PUBREL and stray acks.
+func c13SysSilent(interval, timeout time.Duration, k, cancelAfter int, hung, talk bool) (c13SysRes, error) {
 	victim := 0
 	b := newC13Broker(nil)
 	b.answer = func(c *c13Conn, n int) bool {
@@ -931,6 +913,9 @@ func c13SysSilent(interval, timeout time.Duration, k, cancelAfter int, hung bool
 		}
 		if hung && c.idx == victim {
 			c.hung = true // c.mu is held by the caller
+		}
+		if talk && c.idx == victim {
+			c.send(c13OtherPackets())
 		}
 		return false
 	}
@@ -1004,10 +989,10 @@ func c13SysSilent(interval, timeout time.Duration, k, cancelAfter int, hung bool
 	cli.Disconnect(ctxD)
 	cancelD()
 	return c13SysRes{
-		Coq: fmt.Sprintf("SysSilent %d %d %s %s %s %s %s %s %s %s (%s) %d", interval.Microseconds(), timeout.Microseconds(),
-			cNat(k), cOpt(cancelAfter >= 0, cNat(cancelAfter)), cBool(hung), cNat(len(others)), cNat(pings), cBool(closed), cBool(redialed), cBool(connected), errCoq, gap),
+		Coq: fmt.Sprintf("SysSilent %d %d %s %s %s %s %s %s %s %s %s (%s) %d", interval.Microseconds(), timeout.Microseconds(),
+			cNat(k), cOpt(cancelAfter >= 0, cNat(cancelAfter)), cBool(hung), cBool(talk), cNat(len(others)), cNat(pings), cBool(closed), cBool(redialed), cBool(connected), errCoq, gap),
 		Desc: map[string]interface{}{"scenario": "broker answers k pings then stays silent", "k": k,
-			"caller_cancels_connect_context_after_pings": cancelAfter, "peer_also_stops_reading": hung,
+			"caller_cancels_connect_context_after_pings": cancelAfter, "peer_also_stops_reading": hung, "peer_mute_to_pings_but_sends_other_packets": talk,
 			"other_packets_attempted_on_it_while_open": fmt.Sprintf("%x", others),
 			"interval_us": interval.Microseconds(), "timeout_us": timeout.Microseconds(), "silent_connection": v,
 			"pingreqs_on_it": pings, "client_closed_it": closed, "redialed": redialed, "fresh_connect": connected,
@@ -1135,12 +1120,16 @@ func c13SysDrop(interval, timeout time.Duration, k int) (c13SysRes, error) {
 // PingInterval and Timeout differ; the broker answers every PINGREQ after [delay] (< timeout).
 // The scenario ends when [need] pings were answered, or the client closed / replaced the
 // connection, or [limit] passed; a miss is believed only if [tries] serial tries miss.
-func c13SysPeer(interval, timeout, delay time.Duration, need int, limit time.Duration, tries int) (c13SysRes, error) {
+// rt = RetryClient.ResponseTimeout (0: none); the keep-alive must not depend on it.
+func c13SysPeer(interval, timeout, delay, rt time.Duration, need int, limit time.Duration, tries int) (c13SysRes, error) {
 	var res c13SysRes
 	for try := 1; try <= tries; try++ {
 		b := newC13Broker(func(c *c13Conn, n int) bool { return true })
 		b.delay = delay
-		cli, err := c13NewReconn(b, interval, timeout)
+		cli, err := mqtt.NewReconnectClient(mqtt.DialerFunc(b.dial),
+			mqtt.WithPingInterval(interval), mqtt.WithTimeout(timeout),
+			mqtt.WithReconnectWait(time.Millisecond, 4*time.Millisecond),
+			mqtt.WithRetryClient(&mqtt.RetryClient{ResponseTimeout: rt}))
 		if err != nil {
 			return c13SysRes{}, err
 		}
@@ -1177,11 +1166,11 @@ func c13SysPeer(interval, timeout, delay time.Duration, need int, limit time.Dur
 			ts = append(ts, fmt.Sprint(t))
 		}
 		res = c13SysRes{
-			Coq: fmt.Sprintf("SysPeer %d %d %d %s %s %s %s (%s) %s", interval.Microseconds(), timeout.Microseconds(), delay.Microseconds(),
+			Coq: fmt.Sprintf("SysPeer %d %d %d %d %s %s %s %s (%s) %s", interval.Microseconds(), timeout.Microseconds(), delay.Microseconds(), rt.Microseconds(),
 				cNat(need), cNat(answered), cNat(dials), cNat(closes), errCoq, cListInline(ts)),
 			Desc: map[string]interface{}{"scenario": "PingInterval != Timeout; broker answers every PINGREQ after a delay below the timeout",
 				"interval_us": interval.Microseconds(), "timeout_us": timeout.Microseconds(), "answer_delay_us": delay.Microseconds(),
-				"answered_pings_needed": need, "within": limit.String(), "try": try, "answered": answered, "dials": dials,
+				"RetryClient_ResponseTimeout_us": rt.Microseconds(), "answered_pings_needed": need, "within": limit.String(), "try": try, "answered": answered, "dials": dials,
 				"closes_by_client": closes, "Err": errDesc, "pingreq_times_since_connack_us": times},
 		}
 		if answered >= need && dials == 1 && closes == 0 {
@@ -1413,7 +1402,7 @@ type c13Job struct {
 	timeout  time.Duration
 	outs     []c13Out
 	steps    []c13Step
-	urs      [][3]int
+	urs      [][4]int
 	custom   bool
 	seed     int64
 	obs      c13Obs
@@ -1443,7 +1432,7 @@ func (j *c13Job) coq() string {
 	var sc []string
 	if j.fam == "wire" {
 		for _, ur := range j.urs {
-			sc = append(sc, fmt.Sprintf("(%s,%s,%s)", cNat(ur[0]), cNat(ur[1]), cNat(ur[2])))
+			sc = append(sc, fmt.Sprintf("(%s,%s,%s,%s)", cNat(ur[0]), cNat(ur[1]), cNat(ur[2]), cNat(ur[3])))
 		}
 	} else if j.fam == "env" {
 		for _, s := range j.steps {
@@ -1461,7 +1450,7 @@ func (j *c13Job) desc() map[string]interface{} {
 	var sc []string
 	if j.fam == "wire" {
 		for _, ur := range j.urs {
-			sc = append(sc, fmt.Sprintf("%d unsolicited PINGRESP, PINGREQ, %d PINGRESP consumed before Write returns, %d PINGRESP after", ur[0], ur[1], ur[2]))
+			sc = append(sc, fmt.Sprintf("%d unsolicited PINGRESP, PINGREQ, %d PINGRESP consumed before Write returns, %d PINGRESP after, %d batches of other packets (PUBLISH q0/q1/q2, PUBREL, stray acks)", ur[0], ur[1], ur[2], ur[3]))
 		}
 	} else if j.fam == "env" {
 		for _, s := range j.steps {
@@ -1573,6 +1562,22 @@ func runC13(cfg *runCfg) error {
 				outs = append(outs, alphabet[r.Intn(len(alphabet))]) // ignored tail
 			}
 			addOut(outs)
+		}
+	}
+	// a slow (but answered) ping delays the next one past its tick; the timeout of that next, silent
+	// ping counts from the ping, not from the tick: answered after 20 intervals, then never
+	for _, iv := range []time.Duration{1 * ms, 2 * ms} {
+		for _, n := range []int{0, 1, 3} {
+			var outs []c13Out
+			for i := 0; i < n; i++ {
+				outs = append(outs, c13Out{0, 0})
+			}
+			outs = append(outs, c13Out{0, int(iv.Microseconds()) * 20}, c13Out{1, 0})
+			var steps []c13Step
+			for _, o := range outs {
+				steps = append(steps, o.step())
+			}
+			jobs = append(jobs, &c13Job{fam: "out", interval: iv, timeout: iv*20 + 5*ms, outs: outs, steps: steps, seed: r.Int63()})
 		}
 	}
 	nOutEnum := len(jobs)
@@ -1705,7 +1710,7 @@ func runC13(cfg *runCfg) error {
 
 	// ---- wire: real BaseClient, peer sends surplus PINGRESPs (duplicates with an answer,
 	// unsolicited ones between two pings), then stays silent or keeps answering
-	addWire := func(urs [][3]int) {
+	addWire := func(urs [][4]int) {
 		j := &c13Job{fam: "wire", interval: 2 * ms, urs: urs, timeout: c13LongTO}
 		zero := false
 		for _, ur := range urs {
@@ -1726,13 +1731,16 @@ func runC13(cfg *runCfg) error {
 		}
 		jobs = append(jobs, j)
 	}
-	for _, urs := range [][][3]int{
+	for _, urs := range [][][4]int{
 		{{0, 0, 1}, {0, 0, 0}}, {{0, 0, 2}, {0, 0, 0}}, {{0, 0, 1}, {1, 0, 0}}, {{0, 0, 1}, {3, 0, 0}}, {{1, 0, 0}}, {{2, 0, 1}, {0, 0, 0}},
 		{{2, 0, 1}, {0, 0, 1}, {1, 0, 0}}, {{0, 0, 3}, {2, 0, 1}, {1, 0, 0}}, {{0, 0, 1}, {1, 0, 1}, {1, 0, 1}, {1, 0, 0}}, {{0, 0, 2}, {1, 0, 1}, {1, 0, 2}},
 		{{0, 0, 1}, {0, 0, 1}, {0, 0, 1}, {2, 0, 0}, {0, 0, 1}},
 		// every PINGREQ answered with zero delay for n pings, then silence / still running
 		{{0, 1, 0}, {0, 0, 0}}, {{0, 1, 0}, {0, 1, 0}, {0, 0, 0}}, {{0, 1, 0}, {0, 1, 0}, {0, 1, 0}, {0, 1, 0}, {0, 0, 0}},
 		{{0, 1, 0}, {0, 1, 0}, {0, 1, 0}}, {{0, 1, 0}, {1, 1, 1}, {0, 2, 0}, {0, 0, 0}}, {{1, 1, 0}, {0, 0, 1}, {0, 1, 0}, {1, 0, 0}},
+		// mute to pings but otherwise talking
+		{{0, 0, 0, 1}}, {{0, 0, 1, 1}, {0, 0, 0, 1}}, {{0, 0, 1, 0}, {0, 0, 1, 0}, {0, 0, 0, 3}}, {{0, 1, 0, 1}, {1, 0, 1, 2}, {0, 0, 0, 2}},
+		{{0, 0, 1, 2}, {0, 0, 1, 1}, {0, 0, 1, 1}},
 	} {
 		addWire(urs)
 	}
@@ -1741,10 +1749,10 @@ func runC13(cfg *runCfg) error {
 		nWireRand = 150
 	}
 	for i := 0; i < nWireRand; i++ {
-		var urs [][3]int
+		var urs [][4]int
 		n := r.Intn(7)
 		for k := 0; k < n; k++ {
-			urs = append(urs, [3]int{r.Intn(3) * r.Intn(2), r.Intn(2) * (1 + r.Intn(2)), 0})
+			urs = append(urs, [4]int{r.Intn(3) * r.Intn(2), r.Intn(2) * (1 + r.Intn(2)), 0, r.Intn(3) * r.Intn(2)})
 		}
 		for k := range urs {
 			if urs[k][1] == 0 {
@@ -1752,7 +1760,7 @@ func runC13(cfg *runCfg) error {
 			}
 		}
 		if r.Intn(4) > 0 {
-			urs = append(urs, [3]int{r.Intn(3), 0, 0})
+			urs = append(urs, [4]int{r.Intn(3), 0, 0, r.Intn(3)})
 		}
 		addWire(urs)
 	}
@@ -1801,7 +1809,7 @@ func runC13(cfg *runCfg) error {
 	for _, k := range ks {
 		k := k
 		iv := time.Duration(2+r.Intn(3)) * ms
-		sys = append(sys, &sysJob{run: func() (c13SysRes, error) { return c13SysSilent(iv, 250*ms, k, -1, false) }})
+		sys = append(sys, &sysJob{run: func() (c13SysRes, error) { return c13SysSilent(iv, 250*ms, k, -1, false, false) }})
 	}
 	// hung peer: reads the PINGREQ, does not answer, takes no further byte
 	hks := []int{0, 2}
@@ -1811,7 +1819,13 @@ func runC13(cfg *runCfg) error {
 	for _, k := range hks {
 		k := k
 		iv := time.Duration(2+r.Intn(3)) * ms
-		sys = append(sys, &sysJob{run: func() (c13SysRes, error) { return c13SysSilent(iv, 250*ms, k, -1, true) }})
+		sys = append(sys, &sysJob{run: func() (c13SysRes, error) { return c13SysSilent(iv, 250*ms, k, -1, true, false) }})
+	}
+	// mute to pings but otherwise talking
+	for _, k := range hks {
+		k := k
+		iv := time.Duration(2+r.Intn(3)) * ms
+		sys = append(sys, &sysJob{run: func() (c13SysRes, error) { return c13SysSilent(iv, 250*ms, k, -1, false, true) }})
 	}
 	// the caller cancels its Connect context after Connect returned: {k, cancel after m pings}
 	ccs := [][2]int{{0, 0}, {3, 0}, {5, 2}, {2, 2}}
@@ -1821,7 +1835,7 @@ func runC13(cfg *runCfg) error {
 	for _, kc := range ccs {
 		kc := kc
 		iv := time.Duration(2+r.Intn(3)) * ms
-		sys = append(sys, &sysJob{run: func() (c13SysRes, error) { return c13SysSilent(iv, 250*ms, kc[0], kc[1], false) }})
+		sys = append(sys, &sysJob{run: func() (c13SysRes, error) { return c13SysSilent(iv, 250*ms, kc[0], kc[1], false, false) }})
 	}
 	sys = append(sys, &sysJob{run: func() (c13SysRes, error) { return c13SysHealthy(5*ms, 5*time.Second, soak) }})
 	sys = append(sys, &sysJob{run: func() (c13SysRes, error) { return c13SysHealthy(2*ms, 5*time.Second, soak) }})
@@ -1851,13 +1865,17 @@ func runC13(cfg *runCfg) error {
 		}
 	}
 	// PingInterval != Timeout, in both directions
-	sys = append(sys, &sysJob{run: func() (c13SysRes, error) { return c13SysPeer(600*ms, 250*ms, 0, 1, c13SysTO, 1) }})
-	sys = append(sys, &sysJob{run: func() (c13SysRes, error) { return c13SysPeer(30*ms, 3*time.Second, 200*ms, 5, c13SysTO, 1) }})
-	sys = append(sys, &sysJob{run: func() (c13SysRes, error) { return c13SysPeer(50*ms, 3*time.Second, 0, 5, 1500*ms, 3) }})
+	sys = append(sys, &sysJob{run: func() (c13SysRes, error) { return c13SysPeer(600*ms, 250*ms, 0, 0, 1, c13SysTO, 1) }})
+	// slow-but-in-time broker x RetryClient.ResponseTimeout: none, below the RTT, between RTT and Timeout, above
+	for _, rt := range []time.Duration{0, 50 * ms, time.Second, 10 * time.Second} {
+		rt := rt
+		sys = append(sys, &sysJob{run: func() (c13SysRes, error) { return c13SysPeer(30*ms, 3*time.Second, 200*ms, rt, 5, c13SysTO, 1) }})
+	}
+	sys = append(sys, &sysJob{run: func() (c13SysRes, error) { return c13SysPeer(50*ms, 3*time.Second, 0, 0, 5, 1500*ms, 3) }})
 	if !quick && !search {
-		sys = append(sys, &sysJob{run: func() (c13SysRes, error) { return c13SysPeer(20*ms, 2*time.Second, 150*ms, 12, c13SysTO, 1) }})
-		sys = append(sys, &sysJob{run: func() (c13SysRes, error) { return c13SysPeer(900*ms, 300*ms, 0, 2, c13SysTO, 1) }})
-		sys = append(sys, &sysJob{run: func() (c13SysRes, error) { return c13SysPeer(10*ms, 4*time.Second, 400*ms, 6, c13SysTO, 1) }})
+		sys = append(sys, &sysJob{run: func() (c13SysRes, error) { return c13SysPeer(20*ms, 2*time.Second, 150*ms, 40*ms, 12, c13SysTO, 1) }})
+		sys = append(sys, &sysJob{run: func() (c13SysRes, error) { return c13SysPeer(900*ms, 300*ms, 0, 100*ms, 2, c13SysTO, 1) }})
+		sys = append(sys, &sysJob{run: func() (c13SysRes, error) { return c13SysPeer(10*ms, 4*time.Second, 400*ms, 100*ms, 6, c13SysTO, 1) }})
 	}
 	var wgs sync.WaitGroup
 	for _, s := range sys {
